@@ -283,13 +283,13 @@ Definition result_kind (r : result aexpr) : sh :=
 Definition run_case_with (enc : sh -> sh) (g : cfg) (p : pattern) : string :=
   let r := visit g p in
   sq [enc (shape p); lit tab; result_kind r; lit tab; enc (show_result r); lit tab;
-      match r with Ok a => enc (show_q (print_text a)) | Raise _ => lit "-" end; lit tab;
-      match r with Ok a => enc (show_toks (print a)) | Raise _ => lit "-" end; lit tab;
+      match r with Ok a => enc (show_q (print_text g a)) | Raise _ => lit "-" end; lit tab;
+      match r with Ok a => enc (show_toks (print g a)) | Raise _ => lit "-" end; lit tab;
       enc (show_mexpr (meaning_cst p)); lit tab;
-      match r with Ok a => enc (show_mexpr (meaning_ast a)) | Raise _ => lit "-" end; lit tab;
+      match r with Ok a => enc (show_mexpr (meaning_ast g a)) | Raise _ => lit "-" end; lit tab;
       match r with
-      | Ok a => match unvisit a with
-                | Some c => sq [lit (if toks_eqb (yield c) (print a) then "Y" else "y");
+      | Ok a => match unvisit g a with
+                | Some c => sq [lit (if toks_eqb (yield c) (print g a) then "Y" else "y");
                                 match visit g c with
                                 | Ok a' => lit (if String.eqb (show_expr a' "") (show_expr a "") then "V" else "v")
                                 | Raise _ => lit "x" end]
@@ -301,10 +301,10 @@ Definition run_case_h := run_case_with enc_hash.
 (* an object built through the public classes: str(), meaning, the tree unvisit
    gives, what the visitor makes of that tree, yield = printed tokens *)
 Definition run_prog_with (enc : sh -> sh) (g : cfg) (a : aexpr) : string :=
-  sq [enc (show_q (print_text a)); lit tab; enc (show_mexpr (meaning_ast a)); lit tab;
-      match unvisit a with
+  sq [enc (show_q (print_text g a)); lit tab; enc (show_mexpr (meaning_ast g a)); lit tab;
+      match unvisit g a with
       | Some c => sq [enc (shape c); lit tab; enc (show_result (visit g c)); lit tab;
-                      lit (if toks_eqb (yield c) (print a) then "Y" else "y")]
+                      lit (if toks_eqb (yield c) (print g a) then "Y" else "y")]
       | None => sq [lit "none"; lit tab; lit "-"; lit tab; lit "-"]
       end] "".
 Definition run_prog := run_prog_with enc_full.
